@@ -59,8 +59,10 @@ func normalizeHelpers(repo, tags, path string, known func(key string) bool) (map
 	failed := map[string]bool{} // call sites (file:offset of callee name) the inliner could not reduce
 	seq := 0
 	lastEdit := map[string]string{} // file -> site key of the most recent edit (to undo an edit that does not type-check)
+	lastHow := map[string]string{}  // site key -> inliner that made the edit
+	noGopls := map[string]bool{}    // sites where the gopls inliner's edit did not type-check: the statement inliner gets a try
 	prev := map[string][]byte{}     // file -> content before the most recent edit
-	for round := 0; round < 30; round++ {
+	for round := 0; round < 80; round++ {
 		cfg := &packages.Config{
 			Mode:    packages.NeedName | packages.NeedFiles | packages.NeedCompiledGoFiles | packages.NeedSyntax | packages.NeedTypes | packages.NeedTypesInfo | packages.NeedImports | packages.NeedDeps,
 			Dir:     repo,
@@ -80,7 +82,11 @@ func normalizeHelpers(repo, tags, path string, known func(key string) bool) (map
 				return nil, nil, fmt.Errorf("normalisation produced an ill-typed overlay in round %d", round)
 			}
 			for f, k := range lastEdit {
-				failed[k] = true
+				if lastHow[k] == "gopls inliner" && !noGopls[k] {
+					noGopls[k] = true
+				} else {
+					failed[k] = true
+				}
 				if b, ok := prev[f]; ok && b != nil {
 					overlay[f] = b
 				} else {
@@ -149,14 +155,15 @@ func normalizeHelpers(repo, tags, path string, known func(key string) bool) (map
 				}
 			}
 		}
-		if len(unknown) == 0 {
-			break
-		}
 		// references to unknown functions: static calls (inlinable) and other uses (keep the declaration)
 		type site struct {
 			file *ast.File
 			call *ast.CallExpr
 			fn   *types.Func
+			// a closure variable that is only called, or an immediately invoked literal (fn is nil then)
+			lit  *ast.FuncLit
+			cv   *closureVar
+			name string
 		}
 		var sites []site
 		otherUse := map[*types.Func]bool{}
@@ -167,18 +174,17 @@ func normalizeHelpers(repo, tags, path string, known func(key string) bool) (map
 				if !ok {
 					return true
 				}
-				var id *ast.Ident
-				switch fun := call.Fun.(type) {
-				case *ast.Ident:
-					id = fun
-				case *ast.SelectorExpr:
-					id = fun.Sel
-				}
+				id := calleeIdent(call)
 				if id == nil {
 					return true
 				}
 				if fn, ok := p.TypesInfo.Uses[id].(*types.Func); ok && unknown[fn] != nil {
 					callFun[id] = true
+					// g(X, s.opt…) with integer options of the receiver: decided by the canonical names (defaults.go)
+					if optionStepShape(p.TypesInfo, call, fn) {
+						otherUse[fn] = true
+						return true
+					}
 					// not a call inside the helper itself (recursion)
 					d := unknown[fn]
 					if call.Pos() >= d.Pos() && call.End() <= d.End() {
@@ -211,7 +217,7 @@ func normalizeHelpers(repo, tags, path string, known func(key string) bool) (map
 							return true
 						}
 					}
-					sites = append(sites, site{f, call, fn})
+					sites = append(sites, site{file: f, call: call, fn: fn})
 				}
 				return true
 			})
@@ -221,12 +227,65 @@ func normalizeHelpers(repo, tags, path string, known func(key string) bool) (map
 				otherUse[fn] = true // method value, go/defer through a value, …
 			}
 		}
+		// closure variables the pinned tree does not have and that are only ever called; immediately invoked literals
+		for _, f := range p.Syntax {
+			for _, d := range f.Decls {
+				fd, ok := d.(*ast.FuncDecl)
+				if !ok || fd.Body == nil || fd.Name.Name == "WriteTo" || fd.Name.Name == "ReadFrom" || hasStreamParam(fd) {
+					continue
+				}
+				for _, cv := range localClosures(p.TypesInfo, fd) {
+					if closureInventory[declKey(p.TypesInfo, fd)+":"+cv.Obj.Name()] || !cv.Only || len(cv.Calls) == 0 {
+						continue
+					}
+					// the clean-up idiom — no parameters, no results, called from several exits — is read as it stands
+					// by the rules that care (rollback on every failing path): copying its body into each exit would
+					// only replace one call by a conditional block
+					if (cv.Lit.Type.Params == nil || len(cv.Lit.Type.Params.List) == 0) && (cv.Lit.Type.Results == nil || len(cv.Lit.Type.Results.List) == 0) && len(cv.Calls) >= 2 {
+						continue
+					}
+					// innermost first: a literal that still contains calls of other candidate closures waits
+					for _, call := range cv.Calls {
+						sites = append(sites, site{file: f, call: call, lit: cv.Lit, cv: cv, name: cv.Obj.Name()})
+					}
+				}
+				ast.Inspect(fd.Body, func(n ast.Node) bool {
+					switch x := n.(type) {
+					case *ast.DeferStmt, *ast.GoStmt:
+						return false
+					case *ast.CallExpr:
+						if lit, ok := x.Fun.(*ast.FuncLit); ok {
+							sites = append(sites, site{file: f, call: x, lit: lit, name: "func literal"})
+						}
+					}
+					return true
+				})
+			}
+		}
+		if os.Getenv("COMETLINT_DEBUG") != "" {
+			var us []string
+			for fn := range unknown {
+				us = append(us, fn.Name())
+			}
+			sort.Strings(us)
+			fmt.Fprintf(os.Stderr, "normalize: round %d: %d unknown %v, %d sites\n", round, len(unknown), us, len(sites))
+		}
+		if len(unknown) == 0 && len(sites) == 0 {
+			break
+		}
 		// one inlining per file and round; innermost helpers first (a helper that itself calls an unknown helper waits)
 		sort.Slice(sites, func(i, j int) bool { return sites[i].call.Pos() < sites[j].call.Pos() })
 		callsUnknown := map[*types.Func]bool{}
+		litBusy := map[*ast.FuncLit]bool{}
+		siteName := func(s site) string {
+			if s.lit != nil {
+				return s.name
+			}
+			return s.fn.Name()
+		}
 		for _, s := range sites {
 			// a nested call that already proved impossible to inline does not hold its caller back
-			if failed[fmt.Sprintf("%s:%s:%d", p.Fset.Position(s.file.Pos()).Filename, s.fn.Name(), p.Fset.Position(s.call.Pos()).Offset)] {
+			if failed[fmt.Sprintf("%s:%s:%d", p.Fset.Position(s.file.Pos()).Filename, siteName(s), p.Fset.Position(s.call.Pos()).Offset)] {
 				continue
 			}
 			for fn, d := range unknown {
@@ -234,12 +293,86 @@ func normalizeHelpers(repo, tags, path string, known func(key string) bool) (map
 					callsUnknown[fn] = true
 				}
 			}
+			for _, t := range sites {
+				if t.lit != nil && t.lit != s.lit && s.call.Pos() >= t.lit.Pos() && s.call.End() <= t.lit.End() {
+					litBusy[t.lit] = true
+				}
+			}
 		}
 		done := map[string]bool{}
 		progress := false
 		for _, s := range sites {
 			fname := p.Fset.Position(s.file.Pos()).Filename
-			skey := fmt.Sprintf("%s:%s:%d", fname, s.fn.Name(), p.Fset.Position(s.call.Pos()).Offset)
+			skey := fmt.Sprintf("%s:%s:%d", fname, siteName(s), p.Fset.Position(s.call.Pos()).Offset)
+			if s.lit != nil {
+				if done[fname] || failed[skey] || litBusy[s.lit] {
+					continue
+				}
+				content := func(name string) []byte {
+					if b, ok := overlay[name]; ok {
+						return b
+					}
+					b, _ := os.ReadFile(name)
+					return b
+				}
+				si := &stmtInliner{fset: p.Fset, pkg: p.Types, info: p.TypesInfo, content: content, seq: &seq}
+				var self types.Object
+				if s.cv != nil {
+					self = s.cv.Obj
+				}
+				out, err2 := func() (out []byte, err error) {
+					defer func() {
+						if x := recover(); x != nil {
+							err = fmt.Errorf("panic: %v", x)
+						}
+					}()
+					return si.inlineLit(s.file, s.call, s.lit, self)
+				}()
+				if err2 != nil {
+					if os.Getenv("COMETLINT_DEBUG") != "" {
+						fmt.Fprintf(os.Stderr, "normalize: %s not inlined at %s: %v\n", s.name, p.Fset.Position(s.call.Pos()), err2)
+					}
+					failed[skey] = true
+					continue
+				}
+				// the last call of a closure variable: its definition goes too (an unused variable does not compile)
+				if s.cv != nil && len(s.cv.Calls) == 1 && !si.hoisted {
+					dels := append([]ast.Stmt{s.cv.Def}, s.cv.Blank...)
+					sort.Slice(dels, func(i, j int) bool { return dels[i].Pos() > dels[j].Pos() })
+					okDel := true
+					for _, d := range dels {
+						if p.Fset.Position(d.End()).Offset > p.Fset.Position(s.call.Pos()).Offset {
+							okDel = false
+						}
+					}
+					if okDel {
+						for _, d := range dels {
+							so, eo := p.Fset.Position(d.Pos()).Offset, p.Fset.Position(d.End()).Offset
+							if so >= 0 && eo <= len(out) {
+								out = append(append([]byte{}, out[:so]...), out[eo:]...)
+							}
+						}
+					}
+				}
+				if _, perr := parser.ParseFile(token.NewFileSet(), fname, out, 0); perr != nil {
+					failed[skey] = true
+					continue
+				}
+				if formatted, err := format.Source(out); err == nil {
+					out = formatted
+				}
+				if b, ok := overlay[fname]; ok {
+					prev[fname] = b
+				} else {
+					prev[fname] = nil
+				}
+				overlay[fname] = out
+				done[fname] = true
+				progress = true
+				notes = append(notes, fmt.Sprintf("inlined the call of the local closure %s (the pinned tree has no such closure) at %s:%d [statement inliner]", s.name, relName(repo, fname), p.Fset.Position(s.call.Pos()).Line))
+				lastEdit[fname] = skey
+				continue
+			}
 			if done[fname] || failed[skey] || callsUnknown[s.fn] {
 				continue
 			}
@@ -266,7 +399,7 @@ func normalizeHelpers(repo, tags, path string, known func(key string) bool) (map
 			res, err := inline.Inline(&inline.Caller{Fset: p.Fset, Types: p.Types, Info: p.TypesInfo, File: s.file, Call: s.call}, callee, &inline.Options{Recover: true})
 			var src []byte
 			how := "gopls inliner"
-			if err != nil || res.Literalized {
+			if err != nil || res.Literalized || noGopls[skey] {
 				// statement-level inlining (inline2.go) for what gopls can only wrap in a function literal
 				si := &stmtInliner{fset: p.Fset, pkg: p.Types, info: p.TypesInfo, content: content, seq: &seq}
 				out, err2 := func() (out []byte, err error) {
@@ -321,6 +454,7 @@ func normalizeHelpers(repo, tags, path string, known func(key string) bool) (map
 			progress = true
 			notes = append(notes, fmt.Sprintf("inlined the call to %s (a helper the pinned tree does not have) at %s:%d [%s]", s.fn.Name(), relName(repo, fname), p.Fset.Position(s.call.Pos()).Line, how))
 			lastEdit[fname] = skey
+			lastHow[skey] = how
 		}
 		if progress {
 			continue
@@ -328,7 +462,9 @@ func normalizeHelpers(repo, tags, path string, known func(key string) bool) (map
 		// nothing left to inline: drop helpers without any remaining reference (their statements now live in the callers)
 		referenced := map[*types.Func]bool{}
 		for _, s := range sites {
-			referenced[s.fn] = true
+			if s.fn != nil {
+				referenced[s.fn] = true
+			}
 		}
 		removed := false
 		byFile := map[string][]*ast.FuncDecl{}
@@ -340,6 +476,9 @@ func normalizeHelpers(repo, tags, path string, known func(key string) bool) (map
 			byFile[fname] = append(byFile[fname], d)
 		}
 		for fname, ds := range byFile {
+			if failed["remove:"+fname] {
+				continue // removing the helpers of this file left it ill-typed (an import only they used): they stay
+			}
 			src, ok := overlay[fname]
 			if !ok {
 				src, _ = os.ReadFile(fname)
@@ -372,6 +511,12 @@ func normalizeHelpers(repo, tags, path string, known func(key string) bool) (map
 				if formatted, err := format.Source(src); err == nil {
 					src = formatted
 				}
+				if b, ok := overlay[fname]; ok {
+					prev[fname] = b
+				} else {
+					prev[fname] = nil
+				}
+				lastEdit[fname] = "remove:" + fname
 				overlay[fname] = src
 				removed = true
 			}
@@ -417,4 +562,35 @@ func toEdits(fset *token.FileSet, es []inlineTextEdit) []inlineEdit {
 		out = append(out, inlineEdit{s, en, e.NewText})
 	}
 	return out
+}
+
+// optionStepShape: call is g(X, s.a, s.b…) — one result, at least one further argument, every further argument an
+// integer field selected from a plain name. Such a step may be the identity at the options' defaults.
+func optionStepShape(info *types.Info, call *ast.CallExpr, fn *types.Func) bool {
+	sig := fn.Type().(*types.Signature)
+	if sig.Recv() != nil || sig.Results().Len() != 1 || len(call.Args) < 2 || sig.Params().Len() < 2 {
+		return false
+	}
+	// the step hands back what it was given (possibly shortened / widened): same type in and out
+	if !types.Identical(sig.Results().At(0).Type(), sig.Params().At(0).Type()) {
+		return false
+	}
+	for _, a := range call.Args[1:] {
+		sel, ok := a.(*ast.SelectorExpr)
+		if !ok {
+			return false
+		}
+		if _, isID := sel.X.(*ast.Ident); !isID {
+			return false
+		}
+		v, ok := info.Uses[sel.Sel].(*types.Var)
+		if !ok || !v.IsField() {
+			return false
+		}
+		bt, ok := v.Type().Underlying().(*types.Basic)
+		if !ok || bt.Info()&types.IsInteger == 0 {
+			return false
+		}
+	}
+	return true
 }
